@@ -148,7 +148,19 @@ def nontrivial(c, ir, mr):
     return usable(c, ir, mr) and any(k == "admissible" and f in ("mss", "wscale", "ts1", "ts2", "ip id") for f, k, _, _ in checks(c, ir))
 
 
+def by_label_problem(ir):
+    for fl, win, ws in (ir.get("by_label") or []) if isinstance(ir, dict) else []:
+        want = [8192, 7] if fl == "S" else [16384, 2]
+        if [win, ws] != want:
+            return {"kind": "impersonation by label used a record of the other direction (or none)", "why": "base %s: window / scale %s, the record of its direction says %s; sequence %s" % (fl, [win, ws], want, ir["by_label"]),
+                    "judged_by": "C14 statement (the output is built from the requested signature) + C15_sound"}
+    return None
+
+
 def judge(c, ir, mr):
+    bl = by_label_problem(ir)
+    if bl:
+        return bl
     if not usable(c, ir, mr):
         return None        # raising / unbuildable outputs are C05's subject
     for f, k, ok, d in checks(c, ir):
